@@ -68,45 +68,6 @@ fn check_pack(names: &[&str], contents: &[&[u8]]) {
 const F33: [u8; 33] = [1, 2, 3, 4, 5, 6, 7, 8, 9, 10, 11, 12, 13, 14, 15, 16, 17, 18, 19, 20, 21, 22, 23, 24, 25, 26, 27, 28, 29, 30, 31, 32, 33];
 
 // @tier quick
-// @timeout 1800
-// @mem 12
-// @bounds concrete pack archives: empty; one file "a" of 1 byte; files "a" (2 bytes) and "b" (empty); files "ab" (33 bytes, crosses the 32-byte padding) and "c" (32 bytes) (solver-chosen arm)
-// @claims build -> parse is the identity (names in order, contents, empty files, empty archive); header count, recorded name and file offsets/sizes exact; every file starts on a 32-byte boundary
-// @assume encoding_rs encode/decode replaced by the 7-bit model (stubs.rs): ASCII names
-#[kani::proof]
-#[kani::unwind(42)]
-#[kani::stub(encoding_rs::Encoding::decode, crate::stubs::decode_ascii_model)]
-#[kani::stub(encoding_rs::Encoding::encode, crate::stubs::encode_ascii_model)]
-fn c15_build_parse_identity() {
-    let sel: u8 = kani::any();
-    kani::assume(sel < 4);
-    if sel == 0 { check_pack(&[], &[]); }
-    if sel == 1 { check_pack(&["a"], &[&[7]]); }
-    if sel == 2 { check_pack(&["a", "b"], &[&[7, 8], &[]]); }
-    if sel == 3 { check_pack(&["ab", "c"], &[&F33, &F33[..32]]); }
-    kani::cover!(sel == 3);
-}
-
-// @tier quick
-// @timeout 1800
-// @mem 12
-// @bounds concrete pack archives whose header + name table ends exactly on / one byte before the 32-byte boundary: one file with a 7-byte name, one with an 8-byte name, two files with names of 11 and 12 bytes (solver-chosen arm)
-// @claims as c15_build_parse_identity when the name table needs no padding or exactly fills a block: names stay NUL-terminated and distinct from the first file body
-// @assume encoding_rs encode/decode replaced by the 7-bit model (stubs.rs): ASCII names
-#[kani::proof]
-#[kani::unwind(42)]
-#[kani::stub(encoding_rs::Encoding::decode, crate::stubs::decode_ascii_model)]
-#[kani::stub(encoding_rs::Encoding::encode, crate::stubs::encode_ascii_model)]
-fn c15_name_table_on_padding_boundary() {
-    let sel: u8 = kani::any();
-    kani::assume(sel < 3);
-    if sel == 0 { check_pack(&["ABCDEFG"], &[&[1, 2, 3]]); }
-    if sel == 1 { check_pack(&["ABCDEFGH"], &[&[1, 2, 3]]); }
-    if sel == 2 { check_pack(&["ABCDEFGHIJK", "LMNOPQRSTUVW"], &[&[9], &[]]); }
-    kani::cover!(sel == 2);
-}
-
-// @tier quick
 // @timeout 1200
 // @mem 12
 // @bounds a hand-built conforming image whose file bodies come before the name table and in reverse order (2 files, unaligned placement)
@@ -147,131 +108,6 @@ fn c15_parse_rearranged_image() {
 // ---------------------------------------------------------------------------------------------
 // C16
 // ---------------------------------------------------------------------------------------------
-
-/// Builds an arc image through the bin-archive API. `padded`: 0x60 zero bytes first, offsets relative
-/// to their end. Records are (name, index, size, offset); bodies are written at base+offset.
-fn arc_image(padded: bool, count_label: bool, info_label: bool, records: &[(Option<&str>, u32, u32)], bodies: &[&[u8]], count: u32) -> Vec<u8> {
-    let base = if padded { 0x60 } else { 0 };
-    let mut body_total = 0;
-    for b in bodies {
-        body_total += (b.len() + 3) / 4 * 4;
-    }
-    let count_at = base + body_total + if padded { 0 } else { 4 };
-    let info_at = count_at + 4;
-    let size = info_at + 16 * records.len();
-    let mut a = BinArchive::new(Endian::Little);
-    a.allocate_at_end(size);
-    if !padded {
-        keep(a.write_u32(0, 0xFFFF_FFFF)).unwrap(); // non-zero first word: no header padding
-    }
-    let mut at = base + if padded { 0 } else { 4 };
-    for b in bodies {
-        if !b.is_empty() {
-            keep(a.write_bytes(at, b)).unwrap();
-        }
-        at += (b.len() + 3) / 4 * 4;
-    }
-    keep(a.write_u32(count_at, count)).unwrap();
-    if count_label {
-        keep(a.write_label(count_at, "Count")).unwrap();
-    }
-    if info_label {
-        keep(a.write_label(info_at, "Info")).unwrap();
-    }
-    for i in 0..records.len() {
-        let (name, size, offset) = records[i];
-        let r = info_at + 16 * i;
-        if let Some(n) = name {
-            keep(a.write_string(r, Some(n))).unwrap();
-        }
-        keep(a.write_u32(r + 4, i as u32)).unwrap();
-        keep(a.write_u32(r + 8, size)).unwrap();
-        keep(a.write_u32(r + 12, offset)).unwrap();
-    }
-    let img = keep(a.serialize()).unwrap();
-    std::mem::forget(a);
-    img
-}
-
-// @tier quick
-// @timeout 2400
-// @mem 16
-// @bounds concrete arc images without the padded header: one record ("f", 3 bytes); two records ("f": 2 bytes, "g": empty and recorded exactly at the end of the data region) (solver-chosen arm)
-// @claims extraction returns one entry per record, keyed by its name, whose bytes are exactly the recorded range (unaligned and empty lengths, any body placement)
-// @assume encoding_rs encode/decode replaced by the 7-bit model (stubs.rs)
-#[kani::proof]
-#[kani::unwind(40)]
-#[kani::stub(encoding_rs::Encoding::decode, crate::stubs::decode_ascii_model)]
-#[kani::stub(encoding_rs::Encoding::encode, crate::stubs::encode_ascii_model)]
-fn c16_extract_unpadded() {
-    let two: bool = kani::any();
-    if two {
-        // bodies: f's 2 bytes at offset 4; g is empty and recorded at the end of the data (offset 44 = size)
-        let img = arc_image(false, true, true, &[(Some("f"), 2, 4), (Some("g"), 0, 44)], &[&[0xC1, 0xC2]], 2);
-        let files = keep(mila::arc::from_bytes(&img)).unwrap();
-        assert!(files.len() == 2, "C16: one entry per record");
-        let f = files.get("f").unwrap();
-        assert!(f.len() == 2 && f[0] == 0xC1 && f[1] == 0xC2, "C16: entry bytes must be exactly the recorded range");
-        assert!(files.get("g").unwrap().is_empty(), "C16: an empty record yields an empty entry");
-        std::mem::forget(files);
-        std::mem::forget(img);
-    } else {
-        let img = arc_image(false, true, true, &[(Some("f"), 3, 4)], &[&[0xA1, 0xA2, 0xA3]], 1);
-        let files = keep(mila::arc::from_bytes(&img)).unwrap();
-        assert!(files.len() == 1, "C16: one entry per record");
-        let f = files.get("f").unwrap();
-        assert!(f.len() == 3 && f[0] == 0xA1 && f[1] == 0xA2 && f[2] == 0xA3, "C16: entry bytes must be exactly the recorded range (unaligned length)");
-        std::mem::forget(files);
-        std::mem::forget(img);
-    }
-    kani::cover!(two);
-}
-
-// @tier quick
-// @timeout 2400
-// @mem 16
-// @bounds malformed arc images: no Count label; no Info label; a record without a name; a record whose range leaves the data region; a record offset that overflows 32 bits when the padded header is added (solver-chosen arm)
-// @claims an image lacking either label, a record without a name, or a record whose range leaves the data region is an error, never a panic
-// @assume encoding_rs encode/decode replaced by the 7-bit model (stubs.rs)
-#[kani::proof]
-#[kani::unwind(130)]
-#[kani::stub(encoding_rs::Encoding::decode, crate::stubs::decode_ascii_model)]
-#[kani::stub(encoding_rs::Encoding::encode, crate::stubs::encode_ascii_model)]
-fn c16_malformed_images() {
-    let sel: u8 = kani::any();
-    kani::assume(sel < 5);
-    let img = match sel {
-        0 => arc_image(false, false, true, &[(Some("f"), 1, 4)], &[&[1]], 1),
-        1 => arc_image(false, true, false, &[(Some("f"), 1, 4)], &[&[1]], 1),
-        2 => arc_image(false, true, true, &[(None, 1, 4)], &[&[1]], 1),
-        3 => arc_image(false, true, true, &[(Some("f"), 200, 4)], &[&[1]], 1),
-        _ => arc_image(true, true, true, &[(Some("f"), 1, 0xFFFF_FFF0)], &[&[1]], 1),
-    };
-    let r = keep(mila::arc::from_bytes(&img));
-    assert!(r.is_none(), "C16: a malformed arc image must be reported as an error");
-    kani::cover!(sel == 4);
-    std::mem::forget(r);
-    std::mem::forget(img);
-}
-
-// @tier thorough
-// @timeout 3600
-// @mem 24
-// @bounds a concrete arc image with the 0x60-byte zero header: one record ("f", 3 bytes at offset 0 relative to the end of the header)
-// @claims with the padded header present, record offsets are taken relative to the end of the header
-// @assume encoding_rs encode/decode replaced by the 7-bit model (stubs.rs)
-#[kani::proof]
-#[kani::unwind(130)]
-#[kani::stub(encoding_rs::Encoding::decode, crate::stubs::decode_ascii_model)]
-#[kani::stub(encoding_rs::Encoding::encode, crate::stubs::encode_ascii_model)]
-fn c16_extract_padded() {
-    let img = arc_image(true, true, true, &[(Some("f"), 3, 0)], &[&[0xA1, 0xA2, 0xA3]], 1);
-    let files = keep(mila::arc::from_bytes(&img)).unwrap();
-    let f = files.get("f").unwrap();
-    assert!(files.len() == 1 && f.len() == 3 && f[0] == 0xA1 && f[2] == 0xA3, "C16: with the padded header, offsets are relative to its end");
-    std::mem::forget(files);
-    std::mem::forget(img);
-}
 
 // @tier quick
 // @timeout 600
